@@ -222,7 +222,39 @@ fn default_chain(k: usize, anonymous_end: bool) -> Spec {
     Spec { name: "OUTPut".to_string(), kind: 1, want_default: false, sub: vec![node, Spec { name: "OTHer".to_string(), kind: 0, want_default: false, sub: vec![] }] }
 }
 
+/// A sub-tree that was built as a stand-alone root (`Node::root(..)` / `Root![..]`: an unnamed,
+/// non-default branch) and then mounted inside another tree. Nothing below it can be addressed:
+/// it has no name and it is not optional. Its children re-use names of the host level (and a
+/// default leaf), so that any leak through it shows as a wrong handler.
+fn embed_foreign_root(mut t: Tree, at_root: bool, first: bool) -> Tree {
+    let mut next_id = 10_000;
+    let host: &mut Vec<TNode> = if at_root {
+        &mut t.root
+    } else {
+        match t.root.iter_mut().find(|n| n.is_branch()) {
+            Some(TNode::Branch { children, .. }) => children,
+            _ => &mut t.root,
+        }
+    };
+    let mut inner: Vec<TNode> = host.iter().filter(|n| !n.name().is_empty() && !n.name().starts_with('*')).take(2).map(|n| TNode::Leaf { name: n.name().to_string(), default: false, id: { next_id += 1; next_id } }).collect();
+    inner.push(TNode::Leaf { name: "HIDDen".to_string(), default: true, id: { next_id += 1; next_id } });
+    let foreign = TNode::Branch { name: String::new(), default: false, children: inner };
+    if first {
+        host.insert(0, foreign);
+    } else {
+        host.push(foreign);
+    }
+    let mut n = 0;
+    renumber(&mut t.root, &mut n);
+    t.leaves = count_leaves(&t.root);
+    t
+}
+
 pub fn tree_strategy() -> impl Strategy<Value = Tree> {
+    prop_oneof![18 => tree_strategy_grafted().boxed(), 1 => (tree_strategy_grafted(), any::<bool>(), any::<bool>()).prop_map(|(t, at_root, first)| embed_foreign_root(t, at_root, first)).boxed()]
+}
+
+fn tree_strategy_grafted() -> impl Strategy<Value = Tree> {
     prop_oneof![9 => tree_strategy_plain().boxed(), 1 => (tree_strategy_plain(), 2usize..9, any::<bool>()).prop_map(|(mut t, k, anon)| {
         // graft a deep default chain onto a generated tree
         let mut next_id = t.leaves;
